@@ -54,6 +54,7 @@ func (tr *Trans) ordinal(kind string, in ssa.Instruction) int {
 }
 
 func (tr *Trans) instr(in ssa.Instruction) {
+	tr.curInstr = in
 	switch x := in.(type) {
 	case *ssa.DebugRef:
 	case *ssa.Alloc:
@@ -69,6 +70,16 @@ func (tr *Trans) instr(in ssa.Instruction) {
 			return
 		}
 		if isObjType(fv.Type()) {
+			// taking the address of an embedded struct/array field counts as an access for the lock discipline
+			write := false
+			if refs := x.Referrers(); refs != nil {
+				for _, r := range *refs {
+					if st, ok := r.(*ssa.Store); ok && st.Addr == x {
+						write = true
+					}
+				}
+			}
+			tr.checkGuarded(&Addr{Kind: AddrField, Base: base.C[0], Field: fv.Name(), ST: pt, FV: fv}, write)
 			tr.setVal(x, Val{T: x.Type(), C: []Term{tr.g.fr(tr.e, pt, fv.Name(), base.C[0])}})
 		} else {
 			tr.vals[x] = Val{T: x.Type(), Addr: newFieldAddr(pt, fv, base.C[0])}
@@ -163,7 +174,17 @@ func (tr *Trans) instr(in ssa.Instruction) {
 	case *ssa.Lookup:
 		tr.lookup(x)
 	case *ssa.Range:
-		tr.vals[x] = Val{T: x.Type(), C: []Term{tr.e.fresh("iter", SInt)}, Bind: []Val{tr.val(x.X)}}
+		rv := Val{T: x.Type(), C: []Term{tr.e.fresh("iter", SInt)}, Bind: []Val{tr.val(x.X)}}
+		if mt, isMap := under(x.X.Type()).(*types.Map); isMap {
+			if mk := mapKeys(mt); mk != nil {
+				// ghost set of the keys this iteration has produced so far
+				key := fmt.Sprintf("L$iter$%d$%d", tr.id, tr.ordinal("range", x))
+				vs := arrSort(mk.ksort, SBool)
+				tr.st.set(key, zeroOfSort(vs))
+				rv.Lit = &key
+			}
+		}
+		tr.vals[x] = rv
 	case *ssa.Next:
 		tr.next(x)
 	case *ssa.MakeClosure:
@@ -239,6 +260,7 @@ func (tr *Trans) alloc(x *ssa.Alloc) {
 		r := tr.allocRef(tr.st)
 		z := tr.zeroVal(pt)
 		tr.storeObj(tr.st, pt, r, z)
+		tr.zeroLocks(pt, r)
 		tr.vals[x] = Val{T: x.Type(), C: []Term{r}}
 		return
 	}
@@ -1036,10 +1058,25 @@ func (tr *Trans) next(x *ssa.Next) {
 	}
 	if len(it.Bind) == 1 && len(it.Bind[0].C) == 1 {
 		if mt, okm := under(it.Bind[0].T).(*types.Map); okm {
-			if mk := mapKeys(mt); mk != nil && len(k.C) == 1 && k.C[0].Sort == mk.ksort {
+			if mk := mapKeys(mt); mk != nil && len(k.C) == 1 {
+				if k.C[0].S == "0" || k.C[0].Sort != mk.ksort {
+					// the key is not used by the program: it still exists
+					k = Val{T: mt.Key(), C: []Term{tr.e.fresh("next.key", mk.ksort)}}
+				}
 				r := it.Bind[0].C[0]
 				h := tr.st.get(tr.e, mk.has, mk.hasSort)
 				tr.e.assume(tr.rc, implies(okc, sel(sel(h, r), k.C[0])))
+				if it.Lit != nil {
+					vs := arrSort(mk.ksort, SBool)
+					vis := tr.st.get(tr.e, *it.Lit, vs)
+					tr.e.assume(tr.rc, implies(okc, not(sel(vis, k.C[0]))))
+					tr.st.set(*it.Lit, tr.e.name("visited", ite(okc, store(vis, k.C[0], tTrue), vis)))
+					if !tr.mapUpdatedInFunc(mt) {
+						// iteration is over: every key still in the map has been produced (no insertions during the loop)
+						tr.e.assume(tr.rc, implies(not(okc), Term{fmt.Sprintf("(forall ((x!q %s)) (! (=> (select (select %s %s) x!q) (select %s x!q)) :pattern ((select (select %s %s) x!q))))",
+							mk.ksort, h.S, r.S, vis.S, h.S, r.S), SBool}))
+					}
+				}
 				if !vInvalid && len(mk.vals) == len(v.C) {
 					for i, ks := range mk.vals {
 						hv := tr.st.get(tr.e, ks.key, ks.sort)
@@ -1052,4 +1089,44 @@ func (tr *Trans) next(x *ssa.Next) {
 	out.C = append(out.C, k.C...)
 	out.C = append(out.C, v.C...)
 	tr.setVal(x, out)
+}
+
+// mapUpdatedInFunc reports whether the function inserts into a map of the given type (then range-exit facts are not emitted).
+func (tr *Trans) mapUpdatedInFunc(mt *types.Map) bool {
+	for _, b := range tr.fn.Blocks {
+		for _, in := range b.Instrs {
+			if mu, ok := in.(*ssa.MapUpdate); ok {
+				if types.Identical(under(mu.Map.Type()), mt) {
+					return true
+				}
+			}
+		}
+	}
+	return false
+}
+
+// zeroLocks clears the ghost lock state of the mutexes embedded in a freshly allocated object.
+func (tr *Trans) zeroLocks(t types.Type, ref Term) {
+	st, ok := under(t).(*types.Struct)
+	if !ok {
+		return
+	}
+	switch typeKey(t) {
+	case "sync.Mutex":
+		h := tr.st.get(tr.e, "lock$sync.Mutex", arrSort(SInt, SInt))
+		tr.st.set("lock$sync.Mutex", tr.e.name("H", store(h, ref, intT(0))))
+		return
+	case "sync.RWMutex":
+		for _, k := range []string{"lock$sync.RWMutex.w", "lock$sync.RWMutex.r"} {
+			h := tr.st.get(tr.e, k, arrSort(SInt, SInt))
+			tr.st.set(k, tr.e.name("H", store(h, ref, intT(0))))
+		}
+		return
+	}
+	for i := 0; i < st.NumFields(); i++ {
+		f := st.Field(i)
+		if _, isStruct := under(f.Type()).(*types.Struct); isStruct {
+			tr.zeroLocks(f.Type(), tr.g.fr(tr.e, t, f.Name(), ref))
+		}
+	}
 }
